@@ -54,6 +54,24 @@ type State struct {
 	nalloc   int
 	epoch    int      // bumped on every havoc of heaps/globals; names lazily created symbols
 	trace    []string // call-site trace for replay/debug
+	interior []interiorPtr
+}
+
+type interiorPtr struct {
+	ptr  Term
+	addr Addr
+	elem types.Type
+}
+
+// copyBackInterior: after a call that may write memory, interior pointers handed out earlier may have been written through.
+func (u *Unit) copyBackInterior(s *State) {
+	for _, ip := range s.interior {
+		v := u.load(s, AddrDeref{ip.ptr, ip.elem})
+		saved := u.fc
+		u.fc = nil // not a purity-relevant store
+		u.store(s, ip.addr, v)
+		u.fc = saved
+	}
 }
 
 func newState() *State {
@@ -99,6 +117,7 @@ func (s *State) clone() *State {
 	n.nalloc = s.nalloc
 	n.epoch = s.epoch
 	n.trace = append([]string{}, s.trace...)
+	n.interior = append([]interiorPtr{}, s.interior...)
 	return n
 }
 
